@@ -10,10 +10,22 @@ import (
 )
 
 type Job struct {
-	Mode string   `json:"mode"` // layer | udp | tcp
-	P    Params   `json:"p"`
-	Acts []Act    `json:"acts"`
-	Plan []string `json:"plan"` // obsbw
+	Mode  string   `json:"mode"` // layer | udp | tcp
+	P     Params   `json:"p"`
+	Acts  []Act    `json:"acts"`
+	Plan  []string `json:"plan"` // obsbw
+	TokA  []int    `json:"tokA"` // mix
+	TokB  []int    `json:"tokB"`
+	NB    int      `json:"nb"`
+	Order []int    `json:"order"`
+}
+
+func toBytes(x []int) []byte {
+	b := make([]byte, len(x))
+	for i, v := range x {
+		b[i] = byte(v)
+	}
+	return b
 }
 
 // Run executes every job (one JSON object per line).
@@ -50,8 +62,12 @@ func Run(jobPath, out string) {
 				res[i] = RunLayer(jobs[i].P, jobs[i].Acts, true)
 			case "udp":
 				res[i] = RunUDP(jobs[i].P, jobs[i].Acts)
+			case "mix":
+				res[i] = RunMix(toBytes(jobs[i].TokA), toBytes(jobs[i].TokB), jobs[i].NB, jobs[i].Order)
 			case "obsbw":
 				res[i] = RunObsBW(jobs[i].P, jobs[i].Plan)
+			case "tcpconcz":
+				res[i] = RunTCPConcZ(jobs[i].P, 3)
 			case "tcpconc":
 				res[i] = RunTCPConc(jobs[i].P, 3)
 			default:
